@@ -105,3 +105,44 @@ func verifHarnessC14DeleteVersion()  { verifC14Run(opDeleteVersion) }
 func verifHarnessC14Delete()         { verifC14Run(opDelete) }
 func verifHarnessC14Path()           { verifC14Run(100) }
 func verifHarnessC14WriteGen()       { verifC14Run(101) }
+
+// ---------- C18 (db legs) ----------
+
+// byteString's text marshalers through the real encoding/base64: decode(encode(b)) == b for every byte vector up to the bound.
+func verifHarnessC18Base64() {
+	b := nondetBytes("raw", param("rawlen"))
+	bs := byteString(b)
+	text, err := bs.MarshalText()
+	assert("encode-ok", err == nil)
+	var out byteString
+	err = (&out).UnmarshalText(text)
+	assert("decode-ok", err == nil)
+	assert("roundtrip", out == bs)
+	assert("length", len(out) == len(b))
+	reach("end")
+}
+
+// copy-in / copy-out at the database boundary
+func verifHarnessC18CopyInOut() {
+	k := verifSymKV(param("secrets"), param("versions"), "")
+	assume(verifKVInv(k))
+	assume(verifKVBound(k))
+	d := verifDB(k, &verifSink{})
+	name := nondetString("name")
+	val := nondetBytes("val", param("vallen"))
+	orig := append([]byte(nil), val...)
+	v, err := d.Put(verifSuperuser(), name, val)
+	if err != nil {
+		reach("end-error")
+		return
+	}
+	// the caller scribbles over its buffer afterwards
+	mutate(val)
+	got, gerr := d.GetVersion(verifSuperuser(), name, v)
+	assert("get-ok", and(gerr == nil, got != nil))
+	assert("copy-in", bytesEq(got.Value, orig))
+	mutate(got.Value)
+	got2, _ := d.GetVersion(verifSuperuser(), name, v)
+	assert("copy-out", bytesEq(got2.Value, orig))
+	reach("end")
+}
